@@ -523,4 +523,348 @@ theorem ntop6_spec (src d t : List Nat) (size : Nat) (ht : ntop6Text src = .ok t
     rw [this]
     simp [show size ≠ 0 by omega, show t.length < size by omega]
 
+/-! ### pton6: soundness w.r.t. the grammar -/
+
+/-- group texts: 1..4 hex digits each -/
+def AllH16 (gs : List (List Nat)) : Prop := ∀ g ∈ gs, IsH16 g (hexFold g)
+/-- the digits of the group being read -/
+def CurOk (cur : List Nat) : Prop := cur.length ≤ 4 ∧ ∀ c ∈ cur, (hexVal c).isSome
+/-- consumed text of completed groups: each followed by ':' -/
+def preG (gs : List (List Nat)) : List Nat := gs.flatMap fun g => g ++ [58]
+def bytesG (gs : List (List Nat)) : List Nat := gs.flatMap fun g => wbytes (hexFold g)
+
+theorem preG_snoc (gs : List (List Nat)) (g : List Nat) : preG (gs ++ [g]) = preG gs ++ g ++ [58] := by
+  simp [preG]
+theorem bytesG_snoc (gs : List (List Nat)) (g : List Nat) : bytesG (gs ++ [g]) = bytesG gs ++ wbytes (hexFold g) := by
+  simp [bytesG]
+theorem allH16_snoc (gs : List (List Nat)) (g : List Nat) (h : AllH16 gs) (hg : IsH16 g (hexFold g)) :
+    AllH16 (gs ++ [g]) := by
+  intro x hx; simp at hx; rcases hx with hx | rfl
+  · exact h x hx
+  · exact hg
+
+theorem hexFold_snoc (cur : List Nat) (ch : Nat) : hexFold (cur ++ [ch]) = hexFold cur * 16 + (hexVal ch).getD 0 := by
+  simp [hexFold, List.foldl_append]
+
+theorem curOk_isH16 (cur : List Nat) (h : CurOk cur) (hne : cur ≠ []) : IsH16 cur (hexFold cur) :=
+  ⟨hne, h.1, h.2, rfl⟩
+
+theorem groupSeq_pre (gs : List (List Nat)) (s bs : List Nat) (h : AllH16 gs) (hs : GroupSeq s bs) :
+    GroupSeq (preG gs ++ s) (bytesG gs ++ bs) := by
+  induction gs with
+  | nil => simpa [preG, bytesG] using hs
+  | cons g gs ih =>
+    have hg := h g (by simp)
+    have := GroupSeq.cons hg (ih (fun x hx => h x (by simp [hx])))
+    simpa [preG, bytesG] using this
+
+theorem hexSeq_pre (gs : List (List Nat)) (g : List Nat) (h : AllH16 gs) (hg : IsH16 g (hexFold g)) :
+    HexSeq (preG gs ++ g) (bytesG gs ++ wbytes (hexFold g)) := by
+  induction gs with
+  | nil => simpa [preG, bytesG] using HexSeq.one hg
+  | cons g' gs ih =>
+    have hg' := h g' (by simp)
+    have := HexSeq.cons hg' (ih (fun x hx => h x (by simp [hx])))
+    simpa [preG, bytesG] using this
+
+theorem wbytes_len (w : Nat) : (wbytes w).length = 2 := rfl
+
+/-- after "::" (colonp set): the rest of the text is an optional group sequence -/
+theorem pton6Loop_some (lb : List Nat) (src : List Nat) :
+    ∀ (rs : List (List Nat)) (cur curtok : List Nat) (seen val : Nat) (tp v : List Nat),
+    curtok = cur ++ src → seen = cur.length → val = hexFold cur → tp = lb ++ bytesG rs →
+    AllH16 rs → CurOk cur → tp.length ≤ 16 → (cur = [] → rs ≠ [] → src ≠ []) →
+    pton6Loop src curtok seen val tp (some lb.length) = some v →
+    ∃ r rb, (r = [] ∧ rb = [] ∨ GroupSeq r rb) ∧ preG rs ++ cur ++ src = r ∧ lb.length + rb.length < 16 ∧
+      v = shiftLoop lb.length rb.length rb.length 1 (lb ++ rb ++ List.replicate (16 - (lb.length + rb.length)) 0) := by
+  induction src with
+  | nil =>
+    intro rs cur curtok seen val tp v hct hseen hval htp hrs hcur htl hne h
+    subst hct hseen hval htp
+    simp only [pton6Loop, pton6Finish] at h
+    by_cases hc0 : cur = []
+    · subst hc0
+      have hrs0 : rs = [] := by
+        by_cases hr : rs = []
+        · exact hr
+        · exact absurd rfl (hne rfl hr)
+      subst hrs0
+      simp [pton6Tail, bytesG] at h
+      refine ⟨[], [], Or.inl ⟨rfl, rfl⟩, by simp [preG], by simp [bytesG] at htl ⊢; omega, ?_⟩
+      simp [← h.2]
+    · have hs0 : cur.length ≠ 0 := by intro h0; exact hc0 (List.eq_nil_of_length_eq_zero h0)
+      rw [if_pos hs0] at h
+      split at h; · simp at h
+      rename_i hlen
+      simp only [pton6Tail] at h
+      split at h; · simp at h
+      rename_i hne16
+      refine ⟨preG rs ++ cur, bytesG rs ++ wbytes (hexFold cur), Or.inr ?_, by simp, ?_, ?_⟩
+      · exact groupSeq_pre rs _ _ hrs (GroupSeq.one (curOk_isH16 cur hcur hc0))
+      · simp [wbytes_len] at hne16 hlen ⊢; omega
+      · simp at h
+        rw [← h]
+        simp [wbytes_len, List.append_assoc]
+  | cons ch rest ih =>
+    intro rs cur curtok seen val tp v hct hseen hval htp hrs hcur htl hne h
+    subst hct hseen hval htp
+    rw [pton6Loop] at h
+    split at h
+    · -- hex digit
+      rename_i d hd
+      split at h; · simp at h
+      rename_i h4
+      obtain ⟨r, rb, hr, htxt, hlen, hv⟩ := ih rs (cur ++ [ch]) (cur ++ ch :: rest) (cur.length + 1)
+        (hexFold cur * 16 + d) (lb ++ bytesG rs) v (by simp) (by simp)
+        (by rw [hexFold_snoc, hd]; rfl) rfl hrs
+        ⟨by simp; omega, by intro c hc; simp at hc; rcases hc with hc | rfl; exact hcur.2 c hc; simp [hd]⟩
+        htl (by simp) (by simpa using h)
+      exact ⟨r, rb, hr, by simpa using htxt, hlen, hv⟩
+    · rename_i hd
+      split at h
+      · -- ':'
+        rename_i h58
+        subst h58
+        split at h
+        · simp at h
+        · rename_i hs0
+          split at h; · simp at h
+          rename_i hrest
+          split at h; · simp at h
+          rename_i hroom
+          have hc0 : cur ≠ [] := by intro h0; simp [h0] at hs0
+          obtain ⟨r, rb, hr, htxt, hlen, hv⟩ := ih (rs ++ [cur]) [] rest 0 0
+            (lb ++ bytesG rs ++ wbytes (hexFold cur)) v (by simp) rfl (by simp [hexFold])
+            (by rw [bytesG_snoc, List.append_assoc]) (allH16_snoc rs cur hrs (curOk_isH16 cur hcur hc0))
+            ⟨by simp, by simp⟩ (by simp [wbytes_len] at hroom ⊢; omega) (fun _ _ => hrest) h
+          exact ⟨r, rb, hr, by simpa [preG_snoc] using htxt, hlen, hv⟩
+      · split at h
+        · -- '.'
+          rename_i hdot
+          obtain ⟨rfl, hroom⟩ := hdot
+          split at h
+          · rename_i v4 hv4
+            obtain ⟨a, b, c, d, ha, hb, hc, hd', hv4e, hs4⟩ := (pton4_iff_fmt4 _ _).1 hv4
+            have hq : DottedQuad (cur ++ 46 :: rest) v4 := (dottedQuad_iff _ _).2 ⟨a, b, c, d, ha, hb, hc, hd', hv4e, hs4⟩
+            have hl4 : v4.length = 4 := by rw [hv4e]; rfl
+            simp only [pton6Finish, pton6Tail] at h
+            simp at h
+            refine ⟨preG rs ++ (cur ++ 46 :: rest), bytesG rs ++ v4, Or.inr (groupSeq_pre rs _ _ hrs (GroupSeq.quad hq)),
+              by simp, by simp [hl4] at h hroom ⊢; omega, ?_⟩
+            rw [← h.2]
+            simp [hl4, List.append_assoc]
+          · simp at h
+        · simp at h
+
+/-- `Ipv6Text` with the "::" expansion still written as the C shift loop (see `shiftLoop_eq`) -/
+def Ipv6TextS (s v : List Nat) : Prop :=
+  (GroupSeq s v ∧ v.length = 16) ∨
+  ∃ l lb r rb, (l = [] ∧ lb = [] ∨ HexSeq l lb) ∧ (r = [] ∧ rb = [] ∨ GroupSeq r rb) ∧
+    lb.length + rb.length < 16 ∧ s = l ++ 58 :: 58 :: r ∧
+    v = shiftLoop lb.length rb.length rb.length 1 (lb ++ rb ++ List.replicate (16 - (lb.length + rb.length)) 0)
+
+theorem mem_of_mem_dropLast' {l : List (List Nat)} {x : List Nat} (h : x ∈ l.dropLast) : x ∈ l := by
+  rw [List.dropLast_eq_take] at h
+  exact List.mem_of_mem_take h
+
+theorem bytesG_nil_of_len (gs : List (List Nat)) (h : AllH16 gs) (h0 : (bytesG gs).length = 0) : gs = [] := by
+  cases gs with
+  | nil => rfl
+  | cons g gs => simp [bytesG, wbytes_len] at h0
+
+/-- before any "::" (colonp = NULL) -/
+theorem pton6Loop_none (src : List Nat) :
+    ∀ (gs : List (List Nat)) (cur curtok : List Nat) (seen val : Nat) (tp v : List Nat),
+    curtok = cur ++ src → seen = cur.length → val = hexFold cur → tp = bytesG gs →
+    AllH16 gs → CurOk cur → tp.length ≤ 16 → (cur = [] → gs ≠ [] → src ≠ []) →
+    (cur = [] → gs = [] → src.head? ≠ some 58) →
+    pton6Loop src curtok seen val tp none = some v →
+    Ipv6TextS (preG gs ++ cur ++ src) v := by
+  induction src with
+  | nil =>
+    intro gs cur curtok seen val tp v hct hseen hval htp hgs hcur htl hne hhd h
+    subst hct hseen hval htp
+    simp only [pton6Loop, pton6Finish] at h
+    by_cases hc0 : cur = []
+    · subst hc0
+      simp [pton6Tail] at h
+      have : gs = [] := by
+        by_cases hg : gs = []
+        · exact hg
+        · exact absurd rfl (hne rfl hg)
+      subst this
+      simp [bytesG] at h
+    · have hs0 : cur.length ≠ 0 := by intro h0; exact hc0 (List.eq_nil_of_length_eq_zero h0)
+      rw [if_pos hs0] at h
+      split at h; · simp at h
+      simp only [pton6Tail] at h
+      split at h; · simp at h
+      rename_i h16
+      simp at h
+      left
+      refine ⟨?_, by rw [← h]; simpa using h16⟩
+      rw [← h]
+      simpa using groupSeq_pre gs _ _ hgs (GroupSeq.one (curOk_isH16 cur hcur hc0))
+  | cons ch rest ih =>
+    intro gs cur curtok seen val tp v hct hseen hval htp hgs hcur htl hne hhd h
+    subst hct hseen hval htp
+    rw [pton6Loop] at h
+    split at h
+    · rename_i d hd
+      split at h; · simp at h
+      rename_i h4
+      have := ih gs (cur ++ [ch]) (cur ++ ch :: rest) (cur.length + 1)
+        (hexFold cur * 16 + d) (bytesG gs) v (by simp) (by simp)
+        (by rw [hexFold_snoc, hd]; rfl) rfl hgs
+        ⟨by simp; omega, by intro c hc; simp at hc; rcases hc with hc | rfl; exact hcur.2 c hc; simp [hd]⟩
+        htl (by simp) (by simp) (by simpa using h)
+      simpa using this
+    · rename_i hd
+      split at h
+      · rename_i h58
+        subst h58
+        split at h
+        · -- "::"
+          rename_i hs0
+          have hc0 : cur = [] := List.eq_nil_of_length_eq_zero hs0
+          subst hc0
+          simp at h
+          obtain ⟨r, rb, hr, htxt, hlen, hv⟩ := pton6Loop_some (bytesG gs) rest [] [] rest 0 (hexFold []) (bytesG gs) v
+            (by simp) rfl rfl (by simp [bytesG]) (by intro x hx; simp at hx) ⟨by simp, by simp⟩ htl (by simp) h
+          have hg : gs ≠ [] := by
+            intro hg; exact hhd rfl hg (by simp)
+          right
+          have hsplit := List.dropLast_concat_getLast hg
+          refine ⟨preG gs.dropLast ++ gs.getLast hg, bytesG gs, r, rb, Or.inr ?_, hr, hlen, ?_, hv⟩
+          · have := hexSeq_pre gs.dropLast (gs.getLast hg) (fun x hx => hgs x (mem_of_mem_dropLast' hx))
+              (hgs _ (List.getLast_mem hg))
+            rw [← bytesG_snoc, hsplit] at this
+            exact this
+          · rw [← htxt]
+            conv => lhs; rw [← hsplit, preG_snoc]
+            simp [preG]
+        · rename_i hs0
+          split at h; · simp at h
+          rename_i hrest
+          split at h; · simp at h
+          rename_i hroom
+          have hc0 : cur ≠ [] := by intro h0; simp [h0] at hs0
+          have := ih (gs ++ [cur]) [] rest 0 0
+            (bytesG gs ++ wbytes (hexFold cur)) v (by simp) rfl (by simp [hexFold])
+            (by rw [bytesG_snoc]) (allH16_snoc gs cur hgs (curOk_isH16 cur hcur hc0))
+            ⟨by simp, by simp⟩ (by simp [wbytes_len] at hroom ⊢; omega) (fun _ _ => hrest) (by simp) h
+          simpa [preG_snoc] using this
+      · split at h
+        · rename_i hdot
+          obtain ⟨rfl, hroom⟩ := hdot
+          split at h
+          · rename_i v4 hv4
+            obtain ⟨a, b, c, d, ha, hb, hc, hd', hv4e, hs4⟩ := (pton4_iff_fmt4 _ _).1 hv4
+            have hq : DottedQuad (cur ++ 46 :: rest) v4 := (dottedQuad_iff _ _).2 ⟨a, b, c, d, ha, hb, hc, hd', hv4e, hs4⟩
+            simp only [pton6Finish, pton6Tail] at h
+            simp at h
+            left
+            rw [← h.2]
+            exact ⟨by simpa using groupSeq_pre gs _ _ hgs (GroupSeq.quad hq), by simpa using h.1⟩
+          · simp at h
+        · simp at h
+
+theorem pton6_soundS (src v : List Nat) (h : pton6 src = some v) : Ipv6TextS src v := by
+  unfold pton6 at h
+  split at h
+  · rename_i rest
+    split at h
+    · rename_i rest'
+      rw [pton6Loop] at h
+      simp [hexVal] at h
+      obtain ⟨r, rb, hr, htxt, hlen, hv⟩ := pton6Loop_some [] rest' [] [] rest' 0 (hexFold []) [] v
+        (by simp) rfl rfl (by simp [bytesG]) (by intro x hx; simp at hx) ⟨by simp, by simp⟩ (by simp) (by simp)
+        (by simpa [hexFold] using h)
+      right
+      refine ⟨[], [], r, rb, Or.inl ⟨rfl, rfl⟩, hr, by simpa using hlen, ?_, by simpa using hv⟩
+      rw [← htxt]; simp [preG]
+    · simp at h
+  · rename_i hne
+    have := pton6Loop_none src [] [] src 0 0 [] v (by simp) rfl (by simp [hexFold]) (by simp [bytesG])
+      (by intro x hx; simp at hx) ⟨by simp, by simp⟩ (by simp) (by simp)
+      (by
+        intro _ _ hh
+        cases src with
+        | nil => simp at hh
+        | cons a t => simp at hh; subst hh; exact hne t rfl) h
+    simpa [preG] using this
+
+theorem dottedQuad_len (t v : List Nat) (h : DottedQuad t v) : t.length ≤ 15 ∧ v.length = 4 := by
+  obtain ⟨a, b, c, d, _, _, _, _, rfl, rfl⟩ := (dottedQuad_iff t v).1 h
+  exact ⟨(fmt4_len _).2, rfl⟩
+
+theorem hexSeq_len (s bs : List Nat) (h : HexSeq s bs) : 2 * s.length + 2 ≤ 5 * bs.length := by
+  induction h with
+  | one h => have := h.2.1; simp [wbytes_len]; omega
+  | cons h _ ih => have := h.2.1; simp [wbytes_len] at ih ⊢; omega
+
+theorem groupSeq_len (s bs : List Nat) (h : GroupSeq s bs) : 2 * s.length + 2 ≤ 5 * bs.length + 12 := by
+  induction h with
+  | one h => have := h.2.1; simp [wbytes_len]; omega
+  | quad h => have := dottedQuad_len _ _ h; omega
+  | cons h _ ih => have := h.2.1; simp [wbytes_len] at ih ⊢; omega
+
+theorem ipv6TextS_len (s v : List Nat) (h : Ipv6TextS s v) : s.length ≤ 45 := by
+  rcases h with ⟨hg, hl⟩ | ⟨l, lb, r, rb, hl, hr, hlen, rfl, _⟩
+  · have := groupSeq_len s v hg; omega
+  · have h1 : 2 * l.length ≤ 5 * lb.length := by
+      rcases hl with ⟨rfl, rfl⟩ | hl
+      · simp
+      · have := hexSeq_len _ _ hl; omega
+    have h2 : 2 * r.length ≤ 5 * rb.length + 10 := by
+      rcases hr with ⟨rfl, rfl⟩ | hr
+      · simp
+      · have := groupSeq_len _ _ hr; omega
+    simp; omega
+
+/-- no accepted IPv6 text is longer than 45 characters (INET6_ADDRSTRLEN - 1) -/
+theorem pton6_len (s v : List Nat) (h : pton6 s = some v) : s.length ≤ 45 :=
+  ipv6TextS_len s v (pton6_soundS s v h)
+
+theorem takeWhile_append_pct (a z : List Nat) (h : 37 ∉ a) : (a ++ 37 :: z).takeWhile (· ≠ 37) = a := by
+  induction a with
+  | nil => simp
+  | cons x t ih =>
+    have hx : x ≠ 37 := by intro h'; exact h (by simp [h'])
+    have ht : 37 ∉ t := by intro h'; exact h (by simp [h'])
+    have := ih ht
+    simp only [List.cons_append, List.takeWhile_cons]
+    simp [hx]
+    simpa using this
+
+theorem uvInetPton6_nopct (a : List Nat) (h : 37 ∉ a) : uvInetPton AF_INET6 a = ofOpt (pton6 a) := by
+  simp [uvInetPton, AF_INET, AF_INET6, h]
+
+theorem uvInetPton6_zone (a z : List Nat) (h : 37 ∉ a) :
+    uvInetPton AF_INET6 (a ++ 37 :: z) = ofOpt (pton6 a) := by
+  unfold uvInetPton
+  rw [if_neg (by decide : ¬ AF_INET6 = AF_INET), if_pos rfl, if_pos (by simp)]
+  simp only []
+  rw [takeWhile_append_pct a z h]
+  by_cases hl : a.length > 45
+  · rw [if_pos hl]
+    cases hp : pton6 a with
+    | none => rfl
+    | some v => have := pton6_len a v hp; omega
+  · rw [if_neg hl]
+
+theorem uvIp6Addr_zone (a z : List Nat) (h : 37 ∉ a) :
+    uvIp6Addr (a ++ 37 :: z) = uvInetPton AF_INET6 a := by
+  rw [uvInetPton6_nopct a h]
+  unfold uvIp6Addr
+  rw [if_pos (by simp)]
+  simp only []
+  rw [takeWhile_append_pct a z h]
+  by_cases hl : a.length ≥ 46
+  · rw [if_pos hl]
+    cases hp : pton6 a with
+    | none => rfl
+    | some v => have := pton6_len a v hp; omega
+  · rw [if_neg hl, uvInetPton6_nopct a h]
+
 end UvModel.Inet
